@@ -208,6 +208,7 @@ func run(r *core.Run) {
 	calcCases(r)
 	parseCases(r)
 	jsonParseCases(r, key)
+	readerCases(r)
 	for n := 0; n < r.N(150, 3000); n++ {
 		format := formats[n%3]
 		adversarial := rd.Chance(70)
@@ -242,6 +243,10 @@ func corpus(r *core.Run, key []byte) {
 		// value classes of the JSON path (repo patch 51: numbers above 2^53 are written as logged)
 		oneHistory(r, format, key, []entrySpec{e("start", nil), e("ids", logrus.Fields{"session": uint64(math.MaxUint64), "n": int64(9007199254740993), "amount": 0.1, "f": 1e21}), e("next", nil)}, true)
 		oneHistory(r, format, key, []entrySpec{e("bad\xffutf8 <&> \u2028", logrus.Fields{"b": []byte("x\xff"), "err": errors.New("boom <"), "s": jsonStruct{A: 1 << 60, B: "\xc0\xaf"}, "nil": (*jsonStruct)(nil), "t": t0}), e("next", nil)}, true)
+		// values that are NOT Go strings but print with line breaks and separators: a two-line database error, a slice, a byte
+		// slice (seeded change C20-4: the CEF formatter cleans only string values – the entry is then written as two lines)
+		oneHistory(r, format, key, []entrySpec{e("start", nil), e("db error", logrus.Fields{"error": errors.New("pq: syntax error at or near \"x\"\nLINE 1: select x\r\n        ^"),
+			"list": []string{"a\nb", "c|d=e"}, "raw": []byte("x\ny"), "sep": errors.New("a\tb|c=d\\e")}), e("next", nil)}, true)
 	}
 	numberWitness(r, key)
 }
@@ -364,6 +369,9 @@ func oneHistory(r *core.Run, format string, key []byte, specs []entrySpec, adver
 	// every line of an honest log must have been delivered and be protected (else alterations go unnoticed)
 	nl := bytes.Count(file, []byte("\n"))
 	r.Check(len(lines) == nl, "lines-not-delivered:"+class, fmt.Sprintf("the log has %d lines, the reader delivers %d", nl, len(lines)))
+	if !r.Thorough() || rd.Chance(15) { // thorough: 3000 histories – the file shapes on about 450 of them
+		fileShapes(r, format, key, file, lines, class)
+	}
 	// clause 2: alterations
 	// wrong key
 	wk := append([]byte{}, key...)
@@ -559,4 +567,209 @@ func prevIsEndOrNone(format string, lines [][]byte, p int) bool {
 		}
 	}
 	return true
+}
+
+// specLines: which lines a log file consists of – the file split at every line feed, an unterminated last
+// piece counting as a line, one trailing carriage return removed (the statement of reader_yields_every_line).
+func specLines(file []byte) [][]byte {
+	ps := bytes.Split(file, []byte("\n"))
+	if len(ps[len(ps)-1]) == 0 {
+		ps = ps[:len(ps)-1]
+	}
+	for i := range ps {
+		ps[i] = bytes.TrimSuffix(ps[i], []byte("\r"))
+	}
+	return ps
+}
+
+func hexList(ls [][]byte) string {
+	if len(ls) == 0 {
+		return "none"
+	}
+	parts := make([]string, len(ls))
+	for i, l := range ls {
+		parts[i] = core.Hex(l)
+	}
+	return strings.Join(parts, ",")
+}
+
+// readerCases: the file reader alone (processLogFile behind ReadLogEntries) on generated file contents: lines of every
+// kind (empty, carriage returns, look-alike tokens, binary, long) ended by LF or CRLF, the last one terminated or not.
+func readerCases(r *core.Run) {
+	rd := r.Rand
+	contents := []string{"", "a", "x integrity=00", "\r", "a\r", "\r\r", "a\rb", "\x00", "\xff\xfe", " ", "{\"msg\":\"m\",\"integrity\":\"00\"}", "line with spaces ", "é"}
+	fixed := []string{"", "\n", "a", "a\n", "a\nb", "a\nb\n", "\n\n", "a\n\n", "a\n\nb", "\r\n", "a\r\n", "a\r\nb", "a\r\nb\r", "a\r", "\r", "a\n\r", "\na", "a integrity=zz"}
+	var files [][]byte
+	for _, f := range fixed {
+		files = append(files, []byte(f))
+	}
+	for n := 0; n < r.N(120, 1500); n++ {
+		var b bytes.Buffer
+		k := rd.Intn(6)
+		for i := 0; i < k; i++ {
+			if rd.Chance(3) {
+				b.WriteString(strings.Repeat("L", 4090+rd.Intn(12))) // around bufio's 4096-byte buffer
+			} else if rd.Chance(2) {
+				b.WriteString(strings.Repeat("M", 65530+rd.Intn(12)))
+			} else {
+				b.WriteString(core.Pick(rd, contents))
+			}
+			if i < k-1 || rd.Chance(50) {
+				if rd.Chance(25) {
+					b.WriteString("\r\n")
+				} else {
+					b.WriteString("\n")
+				}
+			}
+		}
+		files = append(files, append([]byte{}, b.Bytes()...))
+	}
+	for _, f := range files {
+		term := "terminated"
+		if len(f) > 0 && f[len(f)-1] != '\n' {
+			term = "unterminated"
+		}
+		r.Begin("reader:"+core.Hex(f), len(f) > 0, "stream:boundary", "layer:reader", "last-line:"+term)
+		got := r.Do("C20.lines " + core.Hex(f))
+		want := hexList(specLines(f))
+		r.Check(got == want, "lines-not-delivered:reader:"+term, fmt.Sprintf("file %.120q: the reader hands %.200s to the verifier, the file consists of the lines %.200s", f, got, want))
+	}
+}
+
+func verifyFilesOp(r *core.Run, format string, key []byte, files [][]byte) string {
+	hs := make([]string, len(files))
+	for i, f := range files {
+		hs[i] = core.Hex(f)
+	}
+	return r.Do(fmt.Sprintf("C20.verifyfiles %s %s %s", format, core.Hex(key), strings.Join(hs, " ")))
+}
+
+// joinShape renders lines as a file: LF or CRLF line ends, the last line terminated or not.
+func joinShape(ls [][]byte, crlf, final bool) []byte {
+	var b bytes.Buffer
+	for i, l := range ls {
+		b.Write(l)
+		if i == len(ls)-1 && !final {
+			break
+		}
+		if crlf {
+			b.WriteByte('\r')
+		}
+		b.WriteByte('\n')
+	}
+	return b.Bytes()
+}
+
+// fileShapes: the honest log in every shape a file (or a run of rotated files) can take – no final line break, CRLF
+// line ends, an extra empty last line, split over two or three files each with or without its final line break –
+// must verify; and an alteration of the LAST entry (one byte edited; the line cut inside its integrity value) must be
+// detected in each of these shapes, in particular when the altered line is not terminated.
+func fileShapes(r *core.Run, format string, key []byte, file []byte, lines [][]byte, class string) {
+	rd := r.Rand
+	type shape struct {
+		name  string
+		files func(ls [][]byte) [][]byte
+	}
+	cutAt := 0
+	if len(lines) > 1 {
+		cutAt = 1 + rd.Intn(len(lines)-1)
+	}
+	shapes := []shape{
+		{"lf", func(ls [][]byte) [][]byte { return [][]byte{joinShape(ls, false, true)} }},
+		{"no-final-newline", func(ls [][]byte) [][]byte { return [][]byte{joinShape(ls, false, false)} }},
+		{"crlf", func(ls [][]byte) [][]byte { return [][]byte{joinShape(ls, true, true)} }},
+		{"crlf-no-final-newline", func(ls [][]byte) [][]byte { return [][]byte{joinShape(ls, true, false)} }},
+		{"empty-last-line", func(ls [][]byte) [][]byte { return [][]byte{append(joinShape(ls, false, true), '\n')} }},
+	}
+	if cutAt > 0 {
+		shapes = append(shapes,
+			shape{"two-files", func(ls [][]byte) [][]byte {
+				return [][]byte{joinShape(ls[:cutAt], false, true), joinShape(ls[cutAt:], false, true)}
+			}},
+			shape{"two-files-no-final-newlines", func(ls [][]byte) [][]byte {
+				return [][]byte{joinShape(ls[:cutAt], false, false), joinShape(ls[cutAt:], false, false)}
+			}},
+			shape{"three-files-middle-empty", func(ls [][]byte) [][]byte {
+				return [][]byte{joinShape(ls[:cutAt], true, false), {}, joinShape(ls[cutAt:], false, true)}
+			}})
+	}
+	run := func(files [][]byte) string {
+		if len(files) == 1 {
+			return verifyOp(r, format, key, files[0])
+		}
+		return verifyFilesOp(r, format, key, files)
+	}
+	for _, sh := range shapes[1:] {
+		v := run(sh.files(lines))
+		r.Check(v == "ok", "honest-fails:"+format+":"+class, fmt.Sprintf("honest %s log in the shape %s does not verify (%s)", format, sh.name, v))
+	}
+	// alterations of the last entry of the log and – in the multi-file shapes – of the last entry of the first file
+	targets := []int{len(lines) - 1}
+	if cutAt > 0 {
+		targets = append(targets, cutAt-1)
+	}
+	for _, i := range targets {
+		orig := parseReal(format, lines[i])
+		if !strings.HasPrefix(orig, "entry") {
+			continue
+		}
+		var alts []struct {
+			what string
+			line []byte
+		}
+		// one byte edited
+		for try := 0; try < 4; try++ {
+			l := append([]byte{}, lines[i]...)
+			p := rd.Intn(len(l))
+			l[p] ^= byte(1 << uint(rd.Intn(7)))
+			if bytes.ContainsAny(l, "\n\r") {
+				continue
+			}
+			now := parseReal(format, l)
+			if now == orig || now == "skip" {
+				continue
+			}
+			f, g := strings.Fields(orig), strings.Fields(now)
+			if len(g) == 5 && f[1] == g[1] && f[2] == g[2] && f[4] == g[4] && i == firstProtected(format, lines) {
+				continue
+			}
+			alts = append(alts, struct {
+				what string
+				line []byte
+			}{fmt.Sprintf("edited at byte %d", p), l})
+			break
+		}
+		// cut inside the integrity value
+		if at := bytes.LastIndex(lines[i], []byte("integrity")); at >= 0 {
+			lo := at + len("integrity") + 1
+			if format == "json" {
+				lo += 2 // `":"`
+			}
+			if lo < len(lines[i]) {
+				p := lo + rd.Intn(len(lines[i])-lo)
+				l := append([]byte{}, lines[i][:p]...)
+				now := parseReal(format, l)
+				f, g := strings.Fields(orig), strings.Fields(now)
+				markerOnly := len(g) == 5 && f[1] == g[1] && f[2] == g[2] && f[4] == g[4] && i == firstProtected(format, lines)
+				if now != "skip" && now != orig && !markerOnly {
+					alts = append(alts, struct {
+						what string
+						line []byte
+					}{fmt.Sprintf("cut after byte %d (inside its integrity value)", p), l})
+				}
+			}
+		}
+		for _, alt := range alts {
+			mut := make([][]byte, len(lines))
+			copy(mut, lines)
+			mut[i] = alt.line
+			for _, sh := range shapes {
+				if i != len(lines)-1 && !strings.Contains(sh.name, "files") {
+					continue
+				}
+				v := run(sh.files(mut))
+				mustFailBy(r, "edit-undetected:"+format, fmt.Sprintf("line %d of %d %s, file shape %s", i, len(lines), alt.what, sh.name), v, protectedAfter(format, mut, i))
+			}
+		}
+	}
 }
